@@ -137,10 +137,10 @@ def c09(tier='quick', seed=0):
     rng = random.Random(seed)
     R = Result('layering of defaults, policy file and policy.d', 'random assignments of 4 policy names to layers (registered '
                'default, main file present/absent, up to three directories with files whose names exercise sort order, '
-               'dot-files, a sub-directory, a configured-but-missing directory), every file independently JSON or YAML; '
+               'dot-files, a sub-directory, a configured-but-missing directory, directories given relative or absolute), every file independently JSON or YAML; '
                'plus the complete table for the choice of the policy file')
     names = ['p:a', 'p:b', 'p:c', 'p:d']
-    n = 60 if tier == 'quick' else 600
+    n = 120 if tier == 'quick' else 1200
     for it in range(n):
         sb = Sandbox()
         try:
@@ -169,20 +169,22 @@ def c09(tier='quick', seed=0):
                         sb.mkdir(os.path.join(d, 'sub'))
                         sb.write(os.path.join(d, 'sub', 'zzz.yaml'), body())
             rng.shuffle(dirs)
-            conf = sb.conf(policy_file=main or 'missing.yaml', policy_dirs=dirs)
+            # a directory may be configured relative to the configuration directory or as an absolute path (existing or not)
+            dirs_conf = [sb.path(d) if rng.random() < 0.4 else d for d in dirs]
+            conf = sb.conf(policy_file=main or 'missing.yaml', policy_dirs=dirs_conf)
             e = policy.Enforcer(conf)
             for d in defaults:
                 e.register_default(d)
             got = outcome(e.load_rules)
             bad = None
             if got[0] != 'ret':
-                bad = 'load_rules raised %s: %s' % (got[1], got[2])
+                bad = 'load_rules raised %s: %s (policy_dirs=%r)' % (got[1], got[2], dirs_conf)
             else:
                 exp = expected_rules(sb, main, dirs, defaults)
                 have = snapshot_rules(e)
                 if have != exp:
                     diff = {k: (have.get(k), exp.get(k)) for k in set(have) | set(exp) if have.get(k) != exp.get(k)}
-                    bad = 'effective policy differs from the layering (got, expected): %r; dirs=%r' % (diff, dirs)
+                    bad = 'effective policy differs from the layering (got, expected): %r; dirs=%r' % (diff, dirs_conf)
                 else:
                     for d in defaults:
                         if e.registered_rules[d.name].scope_types != d.scope_types:
@@ -385,7 +387,7 @@ def c12(tier='quick', seed=0):
     quiet()
     rng = random.Random(seed)
     R = Result('loading is idempotent and does not touch registered objects', 'interleavings (exhaustive to length 4, random to '
-               '10) of {load, forced load, enforce, edit file} across one to three enforcers (one without a main policy file and with an empty policy.d, two reading the same files) with their own option values and '
+               '10) of {load, forced load, enforce, edit a directory file, rewrite the main file, empty the main file} across one to three enforcers (one without a main policy file and with an empty policy.d, two reading the same files) with their own option values and '
                'files, sharing one list of RuleDefault/DeprecatedRule objects whose defaults include top-level and/or/not '
                'expressions; effective policy (printed form and node count) after k loads against one load; shared objects '
                'against a snapshot')
@@ -398,7 +400,7 @@ def c12(tier='quick', seed=0):
                   policy.RuleDefault('p:c', 'not role:z', deprecated_rule=dep2),
                   policy.RuleDefault('p:d', 'role:plain')]
     before = [describe(d) for d in shared]
-    acts = ['load', 'force', 'enforce', 'edit', 'editmain']
+    acts = ['load', 'force', 'enforce', 'edit', 'editmain', 'emptymain']
     seqs = []
     L = 3 if tier == 'quick' else 4
     for n in range(1, L + 1):
@@ -425,7 +427,8 @@ def c12(tier='quick', seed=0):
                     sbs.append(sb)
                     sb.mkdir('d1')
                 if i == 0:
-                    sb.write('policy.yaml', {'p:d': 'role:file%d' % i})
+                    # the main file overrides a plain default and the deprecated name that p:a and p:b replace
+                    sb.write('policy.yaml', {'p:d': 'role:file%d' % i, 'p:old': 'role:custom'})
                 conf = sb.conf(policy_file='policy.yaml', policy_dirs=['d1'], enforce_new_defaults=(i == 2))
                 e = policy.Enforcer(conf)
                 for d in shared:
@@ -441,6 +444,9 @@ def c12(tier='quick', seed=0):
                     r = outcome(e.load_rules, True)
                 elif a == 'enforce':
                     r = outcome(e.enforce, 'p:a', {}, {'roles': ['member']})
+                elif a == 'emptymain':
+                    sb.write('policy.yaml', rng.choice([None, {}]))
+                    r = ('ret', None)
                 elif a == 'editmain':
                     k[0] += 1
                     sb.write('policy.yaml', {'p:d': 'role:main%d' % k[0], 'p:main': 'role:m%d' % k[0]})
@@ -491,14 +497,15 @@ def c11(tier='quick', seed=0):
                'enforce_new_defaults x new-name override absent/present x old-name override absent/arbitrary/alias x override in '
                'the main file, in a policy directory, or in a policy directory with no main file x two new policies sharing one '
                'predecessor x loaded fresh, after an earlier generation of the files that overrode both names, or with the old name still '
-               'registered as a policy of its own before its successor; decisions on all subsets of '
+               'registered as a policy of its own before its successor, or after enforce_new_defaults was flipped on a live enforcer '
+               'whose new default is an or-expression; decisions on all subsets of '
                '{new, old, ovr, ovn}; complete for this space')
     R.d['exhaustive'] = True
     roles_all = ['new', 'old', 'ovr', 'ovn', 'new2']
     subsets = [list(c) for k in range(len(roles_all) + 1) for c in itertools.combinations(roles_all, k)]
     for renamed, same_str, flag, new_ovr, old_ovr, where, shared, hist in itertools.product(
             [True, False], [True, False], [True, False], [False, True], ['absent', 'arbitrary', 'alias'],
-            ['main', 'dir', 'dironly'], [False, True], ['fresh', 'overrides-removed', 'old-name-still-registered']):
+            ['main', 'dir', 'dironly'], [False, True], ['fresh', 'overrides-removed', 'old-name-still-registered', 'flag-flipped']):
         if not renamed and old_ovr != 'absent':
             continue        # same name: an old-name override is the new-name override
         if shared and not renamed:
@@ -507,12 +514,15 @@ def c11(tier='quick', seed=0):
             continue
         if hist == 'old-name-still-registered' and not renamed:
             continue
+        if hist == 'flag-flipped' and new_ovr:
+            continue
         sb = Sandbox()
         try:
             with warnings.catch_warnings():
                 warnings.simplefilter('ignore')
                 old_name = 'svc:old' if renamed else 'svc:new'
-                new_str = 'role:new'
+                # in the flag-flipped history the new default is itself an or-expression (role ovn is free there)
+                new_str = 'role:new or role:ovn' if hist == 'flag-flipped' else 'role:new'
                 old_str = 'role:new' if same_str else 'role:old'
                 dep = policy.DeprecatedRule(old_name, old_str, deprecated_reason='r', deprecated_since='s')
                 defaults = [policy.RuleDefault('svc:new', new_str, deprecated_rule=dep)]
@@ -530,7 +540,8 @@ def c11(tier='quick', seed=0):
             elif old_ovr == 'alias':
                 content[old_name] = 'rule:svc:new'
             sb.mkdir('d1')
-            conf = sb.conf(policy_file='policy.yaml', policy_dirs=['d1'], enforce_new_defaults=flag)
+            conf = sb.conf(policy_file='policy.yaml', policy_dirs=['d1'],
+                           enforce_new_defaults=(not flag) if hist == 'flag-flipped' else flag)
             e = policy.Enforcer(conf)
             for d in defaults:
                 e.register_default(d)
@@ -548,8 +559,17 @@ def c11(tier='quick', seed=0):
                 put({'svc:new': 'role:prevnew', old_name: 'role:prevold'})
                 e.load_rules()
                 outcome(e.enforce, 'svc:new', {}, {'roles': []})
-            put(content)
-            e.load_rules()
+            if hist == 'flag-flipped':
+                # the enforcer has already loaded (and decided) under the opposite setting of enforce_new_defaults
+                put(content)
+                e.load_rules()
+                outcome(e.enforce, 'svc:new', {}, {'roles': []})
+                conf.set_override('enforce_new_defaults', flag, group='oslo_policy')
+                e.load_rules(True)
+                e.load_rules(True)
+            else:
+                put(content)
+                e.load_rules()
 
             def want_for(name, new_default, roles):
                 rs = set(roles)
@@ -561,7 +581,7 @@ def c11(tier='quick', seed=0):
                     if ov.startswith('rule:'):
                         return want_for(ov[5:], 'new', roles)
                     return ov[5:] in rs
-                base = new_default in rs
+                base = new_default in rs or (hist == 'flag-flipped' and name == 'svc:new' and 'ovn' in rs)
                 if not flag and old_str != ('role:' + new_default):
                     return base or (old_str[5:] in rs)
                 return base
@@ -596,14 +616,14 @@ def c20(tier='quick', seed=0):
                'old or the new policy; one context switch per run')
     distinct = {}
     scenarios = ['main_only', 'main_with_dir', 'dir_edit', 'defaults_permissive_default', 'deprecated_defaults',
-                 'deprecated_override']
+                 'deprecated_override', 'empty_main_dir_edit']
     if tier == 'quick':
         pass
     for sc in scenarios:
         sb = Sandbox()
         try:
             sb.mkdir('d1')
-            dirs = ['d1'] if sc in ('main_with_dir', 'dir_edit') else []
+            dirs = ['d1'] if sc in ('main_with_dir', 'dir_edit', 'empty_main_dir_edit') else []
             defaults = []
             old_main = {'default': '', 'admin_api': 'role:admin', 'owner_api': 'role:owner'}
             new_main = {'default': '', 'admin_api': 'role:admin or role:root', 'owner_api': 'role:owner'}
@@ -630,6 +650,13 @@ def c20(tier='quick', seed=0):
                     defaults = [policy.RuleDefault('reg_api', 'role:reg', deprecated_rule=dep)]
                 old_main = {'old_api': 'role:owner', 'x': 'role:x'}
                 new_main = {'old_api': 'role:owner', 'x': 'role:x or role:root'}
+            if sc == 'empty_main_dir_edit':
+                # the main file defines no rule at all; the operator tightens a registered default in policy.d and then
+                # edits that directory file
+                defaults = [policy.RuleDefault('reg_api', 'role:reg')]
+                old_main = {}
+                new_main = {}
+                sb.write('d1/o.yaml', {'reg_api': 'role:admin'})
             sb.write('policy.yaml', old_main)
             conf = sb.conf(policy_file='policy.yaml', policy_dirs=dirs, enforce_new_defaults=False)
             queries = [(n, r) for n in ('admin_api', 'owner_api', 'reg_api', 'x', 'nothing')
@@ -649,6 +676,8 @@ def c20(tier='quick', seed=0):
             def edit():
                 if sc == 'dir_edit':
                     sb.write('d1/o.yaml', {'admin_api': 'role:dir_admin2'})
+                elif sc == 'empty_main_dir_edit':
+                    sb.write('d1/o.yaml', {'reg_api': 'role:admin or role:root'})
                 else:
                     sb.write('policy.yaml', new_main)
             import oslo_policy
@@ -678,6 +707,8 @@ def c20(tier='quick', seed=0):
                 # restore the old files, build an enforcer that has loaded them, edit, reload with one preemption
                 if sc == 'dir_edit':
                     sb.write('d1/o.yaml', {'admin_api': 'role:dir_admin'})
+                elif sc == 'empty_main_dir_edit':
+                    sb.write('d1/o.yaml', {'reg_api': 'role:admin'})
                 else:
                     sb.write('policy.yaml', old_main)
                 e = build()
